@@ -8,7 +8,7 @@ Import ListNotations.
 
 Definition teardown_of (e : estep) : option nat :=
   match e with
-  | EKaFail c | ERdErr c | ETdLock c _ | ETdNotify c _ => Some c
+  | EKaFail c | EKaWake c _ | ERdErr c | ETdLock c _ | ETdNotify c _ => Some c
   | _ => None
   end.
 
@@ -167,57 +167,14 @@ Proof. intros x y z (A1&A2&A3&A4) (B1&B2&B3&B4). repeat split; try congruence; a
 Lemma evolves_set_pc : forall x t v, evolves x (set_pc x t v).
 Proof. intros x [] v; repeat split; auto. Qed.
 
-(** close_all touches each connection at most by closing it *)
-Lemma close_all_spec : forall cs l m x',
-  nth_error (close_all cs l) m = Some x' ->
-  exists x, nth_error l m = Some x /\ (x' = x \/ x' = close_conn x).
-Proof.
-  induction cs as [|c cs IH]; intros l m x' H; cbn in H.
-  - eauto.
-  - destruct (nth_error l c) as [z|] eqn:Hz.
-    + destruct (IH _ _ _ H) as [x [Hx Hor]].
-      destruct (nth_error_set_nth _ _ _ _ _ Hx) as [[-> [-> _]]|[Hne Hm]].
-      * exists z. split; [exact Hz|]. destruct Hor as [->| ->]; [right; reflexivity|].
-        right. unfold close_conn. cbn. destruct (pc_eqb (c_ka z) PIdle) eqn:E; cbn; [reflexivity|]. rewrite E. reflexivity.
-      * exists x. auto.
-    + apply IH. exact H.
-Qed.
-
-Lemma close_all_length : forall cs l, length (close_all cs l) = length l.
-Proof.
-  induction cs as [|c cs IH]; intros l; cbn; [reflexivity|].
-  destruct (nth_error l c); rewrite IH; [apply set_nth_length|reflexivity].
-Qed.
-
-Lemma close_all_closed_mono : forall cs l m x x',
-  nth_error l m = Some x -> nth_error (close_all cs l) m = Some x' -> c_closed x = true -> c_closed x' = true.
-Proof.
-  intros cs l m x x' Hx Hx' Hc. destruct (close_all_spec _ _ _ _ Hx') as [y [Hy Hor]].
-  rewrite Hx in Hy. injection Hy as <-. destruct Hor as [->| ->]; [exact Hc|reflexivity].
-Qed.
-
-Lemma close_all_closes : forall cs l m x',
-  In m cs -> nth_error (close_all cs l) m = Some x' -> c_closed x' = true.
-Proof.
-  induction cs as [|c cs IH]; intros l m x' Hin H; [destruct Hin|].
-  cbn in H. destruct Hin as [->|Hin].
-  - destruct (nth_error l m) as [z|] eqn:Hz.
-    + eapply close_all_closed_mono; [|exact H|].
-      * eapply nth_error_set_nth_same. exact Hz.
-      * reflexivity.
-    + exfalso. assert (Hl : (length l <= m)%nat) by (apply nth_error_None; exact Hz).
-      assert (nth_error (close_all cs l) m = None) by (apply nth_error_None; rewrite close_all_length; exact Hl).
-      congruence.
-  - destruct (nth_error l c); eapply IH; eauto.
-Qed.
-
 (* ------------------------------------------------------------------ *)
 (** * Invariant of the repaired code *)
 
 Record Inv (s : st) : Prop := {
   inv_reg : forall p c, lookup p (reg s) = Some c ->
             exists x, get s c = Some x /\ c_peer x = p /\ c_accepted x = true;
-  inv_open : forall c x, get s c = Some x -> c_closed x = false -> lookup (c_peer x) (reg s) = Some c;
+  inv_open : forall c x, get s c = Some x -> c_closed x = false ->
+             lookup (c_peer x) (reg s) = Some c \/ In c (closing s);
   inv_held : forall c x t, get s c = Some x -> th_pc x t = PHeld -> lookup (c_peer x) (reg s) = None;
   inv_pcclosed : forall c x t, get s c = Some x -> (th_pc x t = PClosed \/ th_pc x t = PHeld) -> c_closed x = true;
   inv_rej : forall c x, get s c = Some x -> c_accepted x = false ->
@@ -273,7 +230,7 @@ Proof.
   destruct (lifecycle_held s) eqn:Hl; [discriminate|].
   destruct (lookup p (reg s)) as [c0|] eqn:Hlk; injection H as <-.
   - (* rejected *)
-    split; cbn [reg conns routes get].
+    split; cbn [reg conns routes closing get].
     + intros q c Hq. destruct (inv_reg _ I _ _ Hq) as [x [Hx Hr]]. exists x. split; [|exact Hr].
       unfold get in *. cbn. rewrite nth_error_app1; [exact Hx|]. apply nth_error_Some. congruence.
     + intros c x Hx Hc. unfold get in Hx. cbn in Hx. destruct (nth_error_app_new _ _ _ _ Hx) as [[-> ->]|[_ Hx']].
@@ -291,7 +248,7 @@ Proof.
     + intros q c Hin. destruct (inv_routes _ I _ _ Hin) as [x [Hx Hr]]. exists x. split; [|exact Hr].
       unfold get in *. cbn. rewrite nth_error_app1; [exact Hx|]. apply nth_error_Some. congruence.
   - (* accepted *)
-    split; cbn [reg conns routes get].
+    split; cbn [reg conns routes closing get].
     + intros q c Hq. cbn in Hq. destruct (N.eqb q p) eqn:E.
       * injection Hq as <-. apply N.eqb_eq in E. subst q. eexists. split.
         -- unfold get. cbn. rewrite nth_error_app2 by lia. rewrite Nat.sub_diag. reflexivity.
@@ -299,8 +256,9 @@ Proof.
       * destruct (inv_reg _ I _ _ Hq) as [x [Hx Hr]]. exists x. split; [|exact Hr].
         unfold get in *. cbn. rewrite nth_error_app1; [exact Hx|]. apply nth_error_Some. congruence.
     + intros c x Hx Hc. unfold get in Hx. cbn in Hx. destruct (nth_error_app_new _ _ _ _ Hx) as [[-> ->]|[_ Hx']].
-      * cbn. rewrite N.eqb_refl. reflexivity.
-      * pose proof (inv_open _ I _ _ Hx' Hc) as Ho. cbn.
+      * left. cbn. rewrite N.eqb_refl. reflexivity.
+      * pose proof (inv_open _ I _ _ Hx' Hc) as Ho. cbn [closing].
+        destruct Ho as [Ho|Ho]; [|right; exact Ho]. left. cbn.
         destruct (N.eqb (c_peer x) p) eqn:E; [|exact Ho].
         apply N.eqb_eq in E. rewrite E in Ho. congruence.
     + intros c x t Hx Hp. unfold get in Hx. cbn in Hx. destruct (nth_error_app_new _ _ _ _ Hx) as [[-> ->]|[_ Hx']].
@@ -319,27 +277,30 @@ Qed.
 (** a step that only rewrites the record of connection [c], leaves it closed
     and puts no thread into the Held position *)
 Lemma inv_upd : forall s c x x',
-  Inv s -> get s c = Some x -> evolves x x' -> c_accepted x = true -> c_closed x' = true ->
+  Inv s -> get s c = Some x -> evolves x x' -> c_accepted x = true ->
+  (c_closed x' = true \/
+   (c_closed x' = c_closed x /\
+    forall t, (th_pc x' t = PClosed \/ th_pc x' t = PHeld) -> (th_pc x t = PClosed \/ th_pc x t = PHeld))) ->
   (forall t, th_pc x' t = PHeld -> th_pc x t = PHeld) ->
   Inv (upd s c x').
 Proof.
   intros s c x x' I Hg (E1&E2&E3&E4) Hacc Hcl Hheld.
-  split; cbn [upd reg conns routes get].
+  split; cbn [upd reg conns routes closing get].
   - intros q d Hq. destruct (inv_reg _ I _ _ Hq) as [y [Hy [Hp Ha]]].
     destruct (Nat.eq_dec d c) as [->|Hne].
     + exists x'. unfold get in *. cbn. rewrite (nth_error_set_nth_same _ _ _ _ Hg).
       rewrite Hg in Hy. injection Hy as <-. repeat split; congruence.
     + exists y. unfold get in *. cbn. rewrite nth_error_set_nth_other by assumption. auto.
   - intros d y Hy Hc. unfold get in Hy. cbn in Hy.
-    destruct (nth_error_set_nth _ _ _ _ _ Hy) as [[-> [-> _]]|[Hne Hy']]; [congruence|].
-    eapply inv_open; eauto.
+    destruct (nth_error_set_nth _ _ _ _ _ Hy) as [[-> [-> _]]|[Hne Hy']]; [|eapply inv_open; eauto].
+    destruct Hcl as [Hcl|[Hcl _]]; [congruence|]. rewrite E1. apply (inv_open _ I _ _ Hg). congruence.
   - intros d y t Hy Hp. unfold get in Hy. cbn in Hy.
     destruct (nth_error_set_nth _ _ _ _ _ Hy) as [[-> [-> _]]|[Hne Hy']].
     + rewrite E1. eapply inv_held; eauto.
     + eapply inv_held; eauto.
   - intros d y t Hy Hp. unfold get in Hy. cbn in Hy.
-    destruct (nth_error_set_nth _ _ _ _ _ Hy) as [[-> [-> _]]|[Hne Hy']]; [exact Hcl|].
-    eapply inv_pcclosed; eauto.
+    destruct (nth_error_set_nth _ _ _ _ _ Hy) as [[-> [-> _]]|[Hne Hy']]; [|eapply inv_pcclosed; eauto].
+    destruct Hcl as [Hcl|[Hcl Hpcs]]; [exact Hcl|]. rewrite Hcl. eapply inv_pcclosed; eauto.
   - intros d y Hy Ha. unfold get in Hy. cbn in Hy.
     destruct (nth_error_set_nth _ _ _ _ _ Hy) as [[-> [-> _]]|[Hne Hy']]; [congruence|].
     eapply inv_rej; eauto.
@@ -367,7 +328,7 @@ Proof.
   apply (inv_upd s c x); [exact I|exact Hg| | | |].
   - exact (evolves_close_set x TKa PClosed).
   - eapply (accepted_of_pc _ _ _ TKa); eauto. cbn. congruence.
-  - reflexivity.
+  - left. reflexivity.
   - intros [] Hp; cbn in Hp; [discriminate|exact Hp].
 Qed.
 
@@ -379,7 +340,7 @@ Proof.
   apply (inv_upd s c x); [exact I|exact Hg| | | |].
   - exact (evolves_close_set x TRd PClosed).
   - eapply (accepted_of_pc _ _ _ TRd); eauto. cbn. congruence.
-  - reflexivity.
+  - left. reflexivity.
   - intros [] Hp; cbn in Hp; [|discriminate].
     destruct (pc_eqb (c_ka x) PIdle) eqn:E2; [discriminate|exact Hp].
 Qed.
@@ -393,9 +354,9 @@ Proof.
   - apply (inv_upd s c x); [exact I|exact Hg| | | |].
     + exact (evolves_set_pc x TRd PDone).
     + exact Hacc.
-    + exact Hc.
+    + left. exact Hc.
     + intros [] Hp; cbn in Hp; [exact Hp|discriminate].
-  - destruct I as [I1 I2 I3 I4 I5 I6]. split; cbn [reg conns routes get]; auto.
+  - destruct I as [I1 I2 I3 I4 I5 I6]. split; cbn [reg conns routes closing get]; auto.
     intros q d [Heq|Hin]; [|exact (I6 q d Hin)]. injection Heq as <- <-. exists x. auto.
 Qed.
 
@@ -420,12 +381,12 @@ Lemma inv_upd_reg : forall s c x x' r',
   (forall t, th_pc x' t = PHeld -> lookup (c_peer x) r' = None) ->
   (forall d y t, d <> c -> get s d = Some y -> th_pc y t = PHeld -> lookup (c_peer y) r' = None) ->
   Inv {| conns := set_nth (conns s) c x'; reg := r'; routes := routes s; relays := relays s;
-         cblog := cblog s; blocked := blocked s |}.
+         cblog := cblog s; blocked := blocked s; closing := closing s |}.
 Proof.
   intros s c x x' r' I Hg (E1&E2&E3&E4) Hacc Hcl Hr Hheld Hothers.
   assert (Hsub : forall q d, lookup q r' = Some d -> lookup q (reg s) = Some d).
   { intros q d H. destruct Hr as [->|[-> _]]; [exact H|]. apply lookup_remove_some in H. tauto. }
-  split; cbn [reg conns routes get].
+  split; cbn [reg conns routes closing get].
   - intros q d Hq. apply Hsub in Hq. destruct (inv_reg _ I _ _ Hq) as [y [Hy [Hp Ha]]].
     destruct (Nat.eq_dec d c) as [->|Hne].
     + exists x'. unfold get in *. cbn. rewrite (nth_error_set_nth_same _ _ _ _ Hg).
@@ -433,7 +394,8 @@ Proof.
     + exists y. unfold get in *. cbn. rewrite nth_error_set_nth_other by assumption. auto.
   - intros d y Hy Hc. unfold get in Hy. cbn in Hy.
     destruct (nth_error_set_nth _ _ _ _ _ Hy) as [[-> [-> _]]|[Hne Hy']]; [congruence|].
-    pose proof (inv_open _ I _ _ Hy' Hc) as Ho.
+    pose proof (inv_open _ I _ _ Hy' Hc) as Ho. cbn [closing].
+    destruct Ho as [Ho|Ho]; [|right; exact Ho]. left.
     destruct Hr as [->|[-> Hmine]]; [exact Ho|].
     destruct (N.eq_dec (c_peer y) (c_peer x)) as [Heq|Hnp].
     + rewrite Heq in Ho. congruence.
@@ -484,7 +446,7 @@ Qed.
 
 Lemma inv_routes_sub : forall s r' rl cb b,
   Inv s -> (forall e, In e r' -> In e (routes s)) ->
-  Inv {| conns := conns s; reg := reg s; routes := r'; relays := rl; cblog := cb; blocked := b |}.
+  Inv {| conns := conns s; reg := reg s; routes := r'; relays := rl; cblog := cb; blocked := b; closing := closing s |}.
 Proof.
   intros s r' rl cb b [I1 I2 I3 I4 I5 I6] Hsub. split; auto.
   intros p c Hin. apply (I6 p c). apply Hsub. exact Hin.
@@ -502,54 +464,101 @@ Proof.
   { apply (inv_upd s c x); [exact I|exact Hg| | | |].
     - apply evolves_set_pc.
     - exact Hacc.
-    - destruct t; exact Hcl.
+    - left. destruct t; exact Hcl.
     - intros u Hu. destruct t, u; cbn in Hu; try discriminate; exact Hu. }
   apply (inv_routes_sub (upd s c (set_pc x t PDone)) (wipe_routes (c_peer x) (routes s))
            (wipe_relays (c_peer x) (relays s)) ((c_peer x, c) :: cblog s) (blocked s) I').
   intros e He. unfold wipe_routes in He. apply filter_In in He. tauto.
 Qed.
 
-Lemma inv_EDisconnect : forall s p s', Inv s -> step fixed s (EDisconnect p) = Some s' -> Inv s'.
+Lemma inv_EKaTick : forall s c s', Inv s -> step fixed s (EKaTick c) = Some s' -> Inv s'.
 Proof.
-  intros s p s' I H. cbn [step] in H.
-  destruct (lookup p (reg s)) as [c|] eqn:Hlk; [|discriminate].
-  destruct (get s c) as [x|] eqn:Hg; [|discriminate]. injection H as <-.
-  destruct (inv_reg _ I _ _ Hlk) as [x0 [Hx0 [Hp Hacc]]]. rewrite Hg in Hx0. injection Hx0 as <-.
-  subst p.
-  apply (inv_upd_reg s c x); [exact I|exact Hg| | | | | |].
-  - apply evolves_close.
-  - exact Hacc.
-  - reflexivity.
-  - right. auto.
-  - intros u _. apply lookup_remove_same.
-  - intros d y u _ Hy Hu. apply lookup_remove_none. eapply inv_held; eauto.
+  intros s c s' I H. cbn [step] in H. destruct (get s c) as [x|] eqn:Hg; [|discriminate].
+  destruct (pc_eqb (c_ka x) PIdle && negb (c_closed x)) eqn:E; [|discriminate]. injection H as <-.
+  apply andb_prop in E. destruct E as [E1 E2]. apply pc_eqb_eq in E1.
+  apply (inv_upd s c x); [exact I|exact Hg| | | |].
+  - exact (evolves_set_pc x TKa PSend).
+  - eapply (accepted_of_pc _ _ _ TKa); eauto. cbn. congruence.
+  - right. split; [reflexivity|]. intros [] Hp; cbn in Hp; [destruct Hp; discriminate|exact Hp].
+  - intros [] Hp; cbn in Hp; [discriminate|exact Hp].
 Qed.
 
-Lemma inv_EDisconnectAll : forall s s', Inv s -> step fixed s EDisconnectAll = Some s' -> Inv s'.
+Lemma inv_EKaWake : forall s c f s', Inv s -> step fixed s (EKaWake c f) = Some s' -> Inv s'.
+Proof.
+  intros s c f s' I H. cbn [step] in H. destruct (get s c) as [x|] eqn:Hg; [|discriminate].
+  destruct (pc_eqb (c_ka x) PSend) eqn:E; cbn [negb] in H; [|discriminate]. apply pc_eqb_eq in E.
+  assert (Hacc : c_accepted x = true) by (eapply (accepted_of_pc _ _ _ TKa); eauto; cbn; congruence).
+  destruct (f || c_closed x); injection H as <-.
+  - apply (inv_upd s c x); [exact I|exact Hg| | | |].
+    + exact (evolves_close_set x TKa PClosed).
+    + exact Hacc.
+    + left. reflexivity.
+    + intros [] Hp; cbn in Hp; [discriminate|exact Hp].
+  - apply (inv_upd s c x); [exact I|exact Hg| | | |].
+    + exact (evolves_set_pc x TKa PIdle).
+    + exact Hacc.
+    + right. split; [reflexivity|]. intros [] Hp; cbn in Hp; [destruct Hp; discriminate|exact Hp].
+    + intros [] Hp; cbn in Hp; [discriminate|exact Hp].
+Qed.
+
+Lemma inv_EUnregister : forall s p s', Inv s -> step fixed s (EUnregister p) = Some s' -> Inv s'.
+Proof.
+  intros s p s' I H. cbn [step] in H. destruct (lookup p (reg s)) as [c|] eqn:Hlk; [|discriminate]. injection H as <-.
+  split; cbn [reg conns routes closing get].
+  - intros q d Hq. apply lookup_remove_some in Hq. destruct Hq as [Hq _]. exact (inv_reg _ I q d Hq).
+  - intros d y Hy Hc. destruct (inv_open _ I _ _ Hy Hc) as [Ho|Ho]; [|right; apply in_or_app; auto].
+    destruct (N.eq_dec (c_peer y) p) as [Heq|Hne].
+    + right. rewrite Heq in Ho. rewrite Hlk in Ho. injection Ho as <-. apply in_or_app. right. left. reflexivity.
+    + left. rewrite lookup_remove_other by assumption. exact Ho.
+  - intros d y t Hy Hp. apply lookup_remove_none. exact (inv_held _ I d y t Hy Hp).
+  - intros d y t Hy Hp. exact (inv_pcclosed _ I d y t Hy Hp).
+  - intros d y Hy Ha. exact (inv_rej _ I d y Hy Ha).
+  - intros q d Hin. exact (inv_routes _ I q d Hin).
+Qed.
+
+Lemma inv_EUnregisterAll : forall s s', Inv s -> step fixed s EUnregisterAll = Some s' -> Inv s'.
 Proof.
   intros s s' I H. cbn [step] in H. injection H as <-.
-  assert (Hex : forall d x, get s d = Some x ->
-            exists y, nth_error (close_all (map snd (reg s)) (conns s)) d = Some y /\ (y = x \/ y = close_conn x)).
-  { intros d x Hx. destruct (nth_error (close_all (map snd (reg s)) (conns s)) d) as [y|] eqn:Hy.
-    - destruct (close_all_spec _ _ _ _ Hy) as [x1 [Hx1 Hor]]. unfold get in Hx. rewrite Hx in Hx1. injection Hx1 as <-. eauto.
-    - exfalso. apply nth_error_None in Hy. rewrite close_all_length in Hy.
-      unfold get in Hx. assert (nth_error (conns s) d <> None) by congruence. apply nth_error_Some in H. lia. }
-  split; cbn [reg conns routes get].
-  - intros p c Hq. discriminate.
-  - intros d y Hy Hc. exfalso. unfold get in Hy. cbn in Hy.
-    destruct (close_all_spec _ _ _ _ Hy) as [x [Hx Hor]].
-    assert (y = x) by (destruct Hor as [->| ->]; [reflexivity|discriminate]). subst y.
-    pose proof (inv_open _ I _ _ Hx Hc) as Ho. apply lookup_in_snd in Ho.
-    rewrite (close_all_closes _ _ _ _ Ho Hy) in Hc. discriminate.
+  split; cbn [reg conns routes closing get].
+  - intros q d Hq. discriminate.
+  - intros d y Hy Hc. right. apply in_or_app. destruct (inv_open _ I _ _ Hy Hc) as [Ho|Ho]; [right|left; exact Ho].
+    eapply lookup_in_snd; eauto.
   - reflexivity.
+  - intros d y t Hy Hp. exact (inv_pcclosed _ I d y t Hy Hp).
+  - intros d y Hy Ha. exact (inv_rej _ I d y Hy Ha).
+  - intros q d Hin. exact (inv_routes _ I q d Hin).
+Qed.
+
+Lemma inv_EClosePending : forall s c s', Inv s -> step fixed s (EClosePending c) = Some s' -> Inv s'.
+Proof.
+  intros s c s' I H. cbn [step] in H.
+  destruct (existsb (Nat.eqb c) (closing s)); cbn [negb] in H; [|discriminate].
+  destruct (get s c) as [x|] eqn:Hg; [|discriminate]. injection H as <-.
+  split; cbn [reg conns routes closing get].
+  - intros q d Hq. destruct (inv_reg _ I _ _ Hq) as [y [Hy [Hp Ha]]].
+    destruct (Nat.eq_dec d c) as [->|Hne].
+    + exists (close_conn x). unfold get in *. cbn. rewrite (nth_error_set_nth_same _ _ _ _ Hg).
+      rewrite Hg in Hy. injection Hy as <-. auto.
+    + exists y. unfold get in *. cbn. rewrite nth_error_set_nth_other by assumption. auto.
+  - intros d y Hy Hc. unfold get in Hy. cbn in Hy.
+    destruct (nth_error_set_nth _ _ _ _ _ Hy) as [[-> [-> _]]|[Hne Hy']]; [discriminate|].
+    destruct (inv_open _ I _ _ Hy' Hc) as [Ho|Ho]; [left; exact Ho|right].
+    apply filter_In. split; [exact Ho|]. apply negb_true_iff. apply Nat.eqb_neq. congruence.
   - intros d y t Hy Hp. unfold get in Hy. cbn in Hy.
-    destruct (close_all_spec _ _ _ _ Hy) as [x [Hx Hor]]. destruct Hor as [->| ->]; [eapply inv_pcclosed; eauto|reflexivity].
+    destruct (nth_error_set_nth _ _ _ _ _ Hy) as [[-> [-> _]]|[Hne Hy']]; [|eapply inv_held; eauto].
+    cbn [c_peer close_conn]. destruct (th_pc_close x t) as [Ht|Ht]; [|congruence].
+    apply (inv_held _ I c x t Hg). congruence.
+  - intros d y t Hy Hp. unfold get in Hy. cbn in Hy.
+    destruct (nth_error_set_nth _ _ _ _ _ Hy) as [[-> [-> _]]|[Hne Hy']]; [reflexivity|].
+    eapply inv_pcclosed; eauto.
   - intros d y Hy Ha. unfold get in Hy. cbn in Hy.
-    destruct (close_all_spec _ _ _ _ Hy) as [x [Hx Hor]]. destruct Hor as [->| ->]; [eapply inv_rej; eauto|].
-    destruct (inv_rej _ I _ _ Hx Ha) as (H1&H2&H3). cbn. rewrite H2. cbn. auto.
-  - intros q d Hin. destruct (inv_routes _ I _ _ Hin) as [x [Hx [Hp Ha]]].
-    destruct (Hex _ _ Hx) as [y [Hy Hor]]. exists y. unfold get. cbn. split; [exact Hy|].
-    destruct Hor as [->| ->]; auto.
+    destruct (nth_error_set_nth _ _ _ _ _ Hy) as [[-> [-> _]]|[Hne Hy']]; [|eapply inv_rej; eauto].
+    destruct (inv_rej _ I _ _ Hg Ha) as (H1&H2&H3). cbn. rewrite H2. cbn. auto.
+  - intros q d Hin. destruct (inv_routes _ I _ _ Hin) as [y [Hy [Hp Ha]]].
+    destruct (Nat.eq_dec d c) as [->|Hne].
+    + exists (close_conn x). unfold get in *. cbn. rewrite (nth_error_set_nth_same _ _ _ _ Hg).
+      rewrite Hg in Hy. injection Hy as <-. auto.
+    + exists y. unfold get in *. cbn. rewrite nth_error_set_nth_other by assumption. auto.
 Qed.
 
 Theorem inv_step : forall s e s', Inv s -> step fixed s e = Some s' -> Inv s'.
@@ -561,8 +570,11 @@ Proof.
   - eapply inv_ETdLock; eauto.
   - eapply inv_ETdNotify; eauto.
   - eapply inv_EFrame; eauto.
-  - eapply inv_EDisconnect; eauto.
-  - eapply inv_EDisconnectAll; eauto.
+  - eapply inv_EKaTick; eauto.
+  - eapply inv_EKaWake; eauto.
+  - eapply inv_EUnregister; eauto.
+  - eapply inv_EUnregisterAll; eauto.
+  - eapply inv_EClosePending; eauto.
   - eapply inv_ERelay; eauto.
 Qed.
 
@@ -582,19 +594,24 @@ Lemma reachable_inv : forall s, reachable s -> Inv s.
 Proof. intros s [tr H]. eapply inv_run; [apply inv_init|exact H]. Qed.
 
 (** At most one live connection per peer identity: every open connection is
-    the registered one of its peer, hence two open connections to the same
-    peer are the same connection; and every registered connection went
-    through registerConnection's acceptance. *)
+    either the registered one of its peer or one that Disconnect /
+    DisconnectAll has just unregistered and is about to close ([closing]);
+    hence two open connections to the same peer that are not being closed are
+    the same connection; and every registered connection went through
+    registerConnection's acceptance. *)
 Theorem one_live_connection : forall s, reachable s ->
-  (forall c x, get s c = Some x -> c_closed x = false -> lookup (c_peer x) (reg s) = Some c) /\
+  (forall c x, get s c = Some x -> c_closed x = false ->
+      lookup (c_peer x) (reg s) = Some c \/ In c (closing s)) /\
   (forall c1 c2 x1 x2, get s c1 = Some x1 -> get s c2 = Some x2 ->
-      c_closed x1 = false -> c_closed x2 = false -> c_peer x1 = c_peer x2 -> c1 = c2) /\
+      c_closed x1 = false -> c_closed x2 = false -> c_peer x1 = c_peer x2 ->
+      ~ In c1 (closing s) -> ~ In c2 (closing s) -> c1 = c2) /\
   (forall p c, lookup p (reg s) = Some c -> exists x, get s c = Some x /\ c_peer x = p /\ c_accepted x = true).
 Proof.
   intros s R. pose proof (reachable_inv _ R) as I. split; [|split].
   - intros. eapply inv_open; eauto.
-  - intros c1 c2 x1 x2 H1 H2 O1 O2 Hp.
-    pose proof (inv_open _ I _ _ H1 O1) as L1. pose proof (inv_open _ I _ _ H2 O2) as L2.
+  - intros c1 c2 x1 x2 H1 H2 O1 O2 Hp N1 N2.
+    destruct (inv_open _ I _ _ H1 O1) as [L1|L1]; [|contradiction].
+    destruct (inv_open _ I _ _ H2 O2) as [L2|L2]; [|contradiction].
     rewrite Hp in L1. congruence.
   - intros. eapply inv_reg; eauto.
 Qed.
@@ -633,11 +650,10 @@ Proof.
   intros s e R (c & x & c' & s' & Ht & Hg & Hlk & Hne & Hs & Hharm).
   pose proof (reachable_inv _ R) as I.
   destruct e; cbn in Ht; try discriminate; injection Ht as ->.
-  - (* EKaFail: only enabled on an open connection, which is the registered one *)
+  - (* EKaFail: touches only the connection record *)
     cbn [step] in Hs. rewrite Hg in Hs.
-    destruct (pc_eqb (c_ka x) PIdle && negb (c_closed x)) eqn:E; [|discriminate].
-    apply andb_prop in E. destruct E as [_ E]. apply negb_true_iff in E.
-    pose proof (inv_open _ I _ _ Hg E) as Ho. congruence.
+    destruct (pc_eqb (c_ka x) PIdle && negb (c_closed x)); [|discriminate]. injection Hs as <-.
+    destruct Hharm as [H|[H|H]]; apply H; try reflexivity. exact Hlk.
   - (* ERdErr: touches only the connection record *)
     cbn [step] in Hs. rewrite Hg in Hs. destruct (pc_eqb (c_rd x) PIdle); [|discriminate]. injection Hs as <-.
     destruct Hharm as [H|[H|H]]; apply H; try reflexivity. exact Hlk.
@@ -650,6 +666,11 @@ Proof.
   - (* ETdNotify: only enabled when no connection is registered for the peer *)
     destruct (notify_only_when_unregistered _ _ _ _ R Hs) as [x0 [Hx0 Hn]].
     rewrite Hg in Hx0. injection Hx0 as <-. congruence.
+  - (* EKaWake: touches only the connection record *)
+    cbn [step] in Hs. rewrite Hg in Hs.
+    destruct (negb (pc_eqb (c_ka x) PSend)); [discriminate|].
+    destruct (fail || c_closed x); injection Hs as <-;
+      (destruct Hharm as [H|[H|H]]; apply H; try reflexivity; exact Hlk).
 Qed.
 
 (** non-vacuity: a reachable state in which a teardown step of a replaced
@@ -687,22 +708,62 @@ Proof.
   intros s e R. unfold try. destruct (step fixed s e) eqn:E; [eapply reachable_step; eauto|exact R].
 Qed.
 
-Theorem script_ops_are_interleavings : forall s o, reachable s ->
-  reachable (apply fixed s o) \/ apply fixed s o = set_blocked s.
+Lemma step_blocked : forall v s e s', step v s e = Some s' -> blocked s' = blocked s.
 Proof.
-  intros s o R. destruct o; cbn [apply].
-  - destruct (step fixed s (EReg p)) eqn:E; [left; eapply reachable_step; eauto|right; reflexivity].
-  - left. destruct (step fixed s (EKaFail c)) eqn:E; [|exact R].
-    assert (R1 : reachable s0) by (eapply reachable_step; eauto).
-    destruct hold; repeat apply reachable_try; exact R1.
-  - left. destruct (step fixed s (ERdErr c)) eqn:E; [|exact R].
-    assert (R1 : reachable s0) by (eapply reachable_step; eauto).
-    destruct hold; repeat apply reachable_try; exact R1.
-  - left. destruct (held_thread s c); [apply reachable_try|]; exact R.
-  - left. apply reachable_try, R.
-  - left. apply reachable_try, R.
-  - left. apply reachable_try, R.
-  - left. apply reachable_try, R.
+  intros v s e s' H. destruct e; cbn [step] in H;
+    repeat match type of H with
+           | context [match ?a with _ => _ end] => destruct a
+           | context [if ?a then _ else _] => destruct a
+           end; try discriminate; injection H as <-; reflexivity.
+Qed.
+
+Definition ok_or_blocked (s : st) : Prop := reachable s \/ blocked s = true.
+
+Lemma try_ok : forall s e, ok_or_blocked s -> ok_or_blocked (try fixed s e).
+Proof.
+  intros s e [R|B]; [left; apply reachable_try, R|right].
+  unfold try. destruct (step fixed s e) eqn:E; [rewrite (step_blocked _ _ _ _ E)|]; exact B.
+Qed.
+
+Lemma connect1_ok : forall p s, ok_or_blocked s -> ok_or_blocked (connect1 fixed p s).
+Proof.
+  intros p s H. unfold connect1. destruct (step fixed s (EReg p)) eqn:E; [|right; reflexivity].
+  destruct H as [R|B]; [left; eapply reachable_step; eauto|right]. rewrite (step_blocked _ _ _ _ E). exact B.
+Qed.
+
+Lemma connect_n_ok : forall p n s, ok_or_blocked s -> ok_or_blocked (connect_n fixed p n s).
+Proof. intros p n. induction n as [|n IH]; intros s H; cbn; [exact H|]. apply IH, connect1_ok, H. Qed.
+
+Lemma close_pending_ok : forall cs s, ok_or_blocked s -> ok_or_blocked (close_pending fixed cs s).
+Proof. induction cs as [|c cs IH]; intros s H; cbn; [exact H|]. apply IH, try_ok, H. Qed.
+
+(** Every script operation leads from a reachable state to a reachable state
+    (it is a sequence of atomic steps), unless the model says that a
+    registration the harness observed should have had to wait ([blocked]),
+    which the correspondence check reports as a disagreement. *)
+Theorem script_ops_are_interleavings : forall s o, reachable s -> ok_or_blocked (apply fixed s o).
+Proof.
+  intros s o R. assert (H : ok_or_blocked s) by (left; exact R).
+  destruct o; cbn [apply].
+  - apply connect1_ok, H.
+  - destruct (step fixed s (EKaFail c)) eqn:E; [|exact H].
+    assert (H1 : ok_or_blocked s0) by (left; eapply reachable_step; eauto).
+    destruct hold; repeat apply try_ok; exact H1.
+  - destruct (step fixed s (ERdErr c)) eqn:E; [|exact H].
+    assert (H1 : ok_or_blocked s0) by (left; eapply reachable_step; eauto).
+    destruct hold; repeat apply try_ok; exact H1.
+  - destruct (held_thread s c); [apply try_ok|]; exact H.
+  - apply try_ok, H.
+  - destruct (lookup p (reg s)); [repeat apply try_ok|]; exact H.
+  - apply close_pending_ok, try_ok, H.
+  - apply try_ok, H.
+  - apply try_ok, H.
+  - destruct (step fixed s (EKaWake c fail)) eqn:E; [|exact H].
+    assert (H1 : ok_or_blocked s0) by (left; eapply reachable_step; eauto).
+    destruct hold; repeat apply try_ok; exact H1.
+  - apply connect_n_ok, H.
+  - apply try_ok, H.
+  - apply try_ok, H.
 Qed.
 
 (* ------------------------------------------------------------------ *)
@@ -726,11 +787,11 @@ Lemma held_n_close : forall x, held_n (close_conn x) = held_n x.
 Proof. intros x. unfold held_n, close_conn. cbn. destruct (c_ka x); reflexivity. Qed.
 
 (** rewriting one connection record without touching Held positions or the log *)
-Lemma once_set : forall s c x x' r ro rl b,
+Lemma once_set : forall s c x x' r ro rl b cl,
   Once s -> get s c = Some x -> held_n x' = held_n x -> (c_handled x = true -> c_handled x' = true) ->
-  Once {| conns := set_nth (conns s) c x'; reg := r; routes := ro; relays := rl; cblog := cblog s; blocked := b |}.
+  Once {| conns := set_nth (conns s) c x'; reg := r; routes := ro; relays := rl; cblog := cblog s; blocked := b; closing := cl |}.
 Proof.
-  intros s c x x' r ro rl b O Hg Hh Hd. split; cbn [conns cblog get].
+  intros s c x x' r ro rl b cl O Hg Hh Hd. split; cbn [conns cblog get].
   - intros d y Hy. unfold get in Hy. cbn in Hy. unfold cnt. cbn [cblog].
     destruct (nth_error_set_nth _ _ _ _ _ Hy) as [[-> [-> _]]|[Hne Hy']].
     + destruct (once_conn _ O _ _ Hg) as [A B]. unfold cnt in *. rewrite Hh. split; [exact A|]. intros H. apply Hd, B, H.
@@ -806,16 +867,24 @@ Proof.
     destruct (c_closed x); injection H as <-.
     + unfold upd. eapply once_set; eauto. unfold held_n. cbn. rewrite E. cbn. lia.
     + destruct O as [O1 O2]. split; auto.
-  - (* EDisconnect *)
-    destruct (lookup p (reg s)) as [c|]; [|discriminate].
+  - (* EKaTick *)
+    destruct (get s c) as [x|] eqn:Hg; [|discriminate].
+    destruct (pc_eqb (c_ka x) PIdle && negb (c_closed x)) eqn:E; [|discriminate]. injection H as <-.
+    apply andb_prop in E. destruct E as [E _]. apply pc_eqb_eq in E.
+    unfold upd. eapply once_set; eauto. unfold held_n. cbn. rewrite E. reflexivity.
+  - (* EKaWake *)
+    destruct (get s c) as [x|] eqn:Hg; [|discriminate].
+    destruct (pc_eqb (c_ka x) PSend) eqn:E; cbn [negb] in H; [|discriminate]. apply pc_eqb_eq in E.
+    destruct (fail || c_closed x); injection H as <-; unfold upd; eapply once_set; eauto;
+      unfold held_n; cbn; rewrite E; reflexivity.
+  - (* EUnregister *)
+    destruct (lookup p (reg s)); [|discriminate]. injection H as <-. destruct O as [O1 O2]. split; auto.
+  - (* EUnregisterAll *)
+    injection H as <-. destruct O as [O1 O2]. split; auto.
+  - (* EClosePending *)
+    destruct (existsb (Nat.eqb c) (closing s)); cbn [negb] in H; [|discriminate].
     destruct (get s c) as [x|] eqn:Hg; [|discriminate]. injection H as <-.
     eapply once_set; eauto. apply held_n_close.
-  - (* EDisconnectAll *)
-    injection H as <-. split; cbn [conns cblog get].
-    + intros d y Hy. unfold get in Hy. cbn in Hy. unfold cnt. cbn [cblog].
-      destruct (close_all_spec _ _ _ _ Hy) as [x [Hx Hor]]. destruct (once_conn _ O _ _ Hx) as [A B].
-      destruct Hor as [->| ->]; [auto|]. rewrite held_n_close. auto.
-    + intros d Hd. rewrite close_all_length. apply (once_dom _ O), Hd.
   - (* ERelay *)
     injection H as <-. destruct O as [O1 O2]. split; auto.
 Qed.
